@@ -3,7 +3,7 @@ SPEC = {
     "coq_props": ["Properties/C14.v", "Corr/C14.v"],
     "module": "MS.Properties.C14",
     "theorems": ["C14_mismatch_rejected", "C14_failed_stores_nothing", "C14_rejected_first_changes_nothing", "C14a_refuted",
-                 "C14_coerce_int_int", "C14_coerce_float_int", "C14_coerce_int_f32_guarded", "C14b_refuted", "C14c_refuted"],
+                 "C14_coerce_int_int", "C14_coerce_float_int", "C14_coerce_int_f32_guarded", "C14b_refuted", "C14_stored_by_name"],
     "corr_require": "Require Import MS.Corr.C14.",
     "agrees": "C14.agrees",
     "in_domain": "C14.in_domain",
@@ -37,7 +37,8 @@ SPEC = {
                   "stays queued and later requests store nothing on its behalf; C14a_refuted - otherwise the rows of buckets iterated earlier stay in the pipe and "
                   "reach the files with the next accepted request. (b) C14_coerce_int_int - all 9x9 integer type pairs, every value: coercion = Go's conversion; "
                   "C14_coerce_float_int - in-range float->integer = truncation; C14_coerce_int_f32_guarded - |v| < 2^53: coercion via float64 = direct float32(v) "
-                  "(Flocq proof); C14b_refuted - 2^54+2^30+1 rounds twice. (c) C14c_refuted - columns are matched by name but stored by position.",
+                  "(Flocq proof); C14b_refuted - 2^54+2^30+1 rounds twice. (c) C14_stored_by_name - a one-row request carrying the bucket's columns in any order is stored per column name "
+                  "(since fix: commit in /repo; the former refutation is a regression case).",
     "level_note": "Axioms: Coq.Reals + classic via Flocq (listed). Trusted: Coq kernel/VM, Flocq, translator, harness. Modelled not verified: executor/writer.go WriteCSM "
                   "(schema part), utils/io/columnseries.go GetMissingAndTypeCoercionColumns, generics.go AnySet, coercecolumn.go. Also observed: coercing a bool or "
                   "string16 column to a numeric type panics inside reflect (not an error return).",
